@@ -507,7 +507,7 @@ def check_document_names(ck):
 
 # ----------------------------------------------------------------- the check
 def run(ck: common.Check):
-    ck.prove(["GeffProps.C02"])
+    ck.prove(["GeffProps.C02", "GeffProps.C02Links"])
     ck.rule = ("graphs as in C01 (bounded-exhaustive small graphs + hand-picked + seeded random; well-formed ones only). "
                "Direction 1: each graph written by write_arrays on MemoryStore x zarr_format 2 and 3 (a sample on "
                "LocalStore/Path), dump decoded by Lean `denote` and by a python raw-zarr decoder. Direction 2: per graph "
